@@ -82,9 +82,16 @@ def phase2(sel):
             sh(f"git -C {REPO} clean -fdq src")
             sh(f"rm -rf {ROOT}/replays")
         detected = [p for p, v in checks.items() if v["exit"] == 1]
+        prev = json.load(open(f"{dest}/meta.json")) if os.path.exists(f"{dest}/meta.json") else {}
         meta = dict(id=sid, breaks_property=prop, confirmed=dict(applies=r.get("applies"), builds=r.get("build_ok"), baseline_tests_pass_fail=r.get("tests_pass_fail"),
                     demo_exit_on_pristine=r.get("demo_pristine_exit"), demo_exit_with_change=r.get("demo_patched_exit")),
                     checks_quick=checks, detected_by=detected, expected_detected=bool(detected))
+        if prev.get("checks_quick"):
+            meta["checks_quick_first_run"] = prev.get("checks_quick_first_run", prev["checks_quick"])
+            meta["first_run_detected_by"] = prev.get("first_run_detected_by", prev.get("detected_by"))
+        for k in ("needs", "what_i_ran"):
+            if k in prev: meta[k] = prev[k]
+        meta["checks_quick_at_verif_commit"] = sh(f"git -C {ROOT} rev-parse --short HEAD")[1].strip()
         json.dump(meta, open(f"{dest}/meta.json", "w"), indent=1)
 
 if __name__ == "__main__":
